@@ -8,6 +8,7 @@
 package main
 
 import (
+	"os"
 	"encoding/json"
 	"fmt"
 	"hash/fnv"
@@ -100,7 +101,7 @@ func child(raw json.RawMessage, io *core.ChildIO) (any, error) {
 	}
 	addViol := func(sig string, w *witness) {
 		out.ViolCount[sig]++
-		if _, ok := out.Viol[sig]; !ok {
+		if cur, ok := out.Viol[sig]; !ok || smaller(w, cur) {
 			out.Viol[sig] = w
 		}
 	}
@@ -152,7 +153,12 @@ func child(raw json.RawMessage, io *core.ChildIO) (any, error) {
 				continue
 			}
 			io.Log(map[string]any{"config": ci, "plugin": plugin, "selectors": c.Selectors})
-			rr, err := startReal(plugin, c.Selectors)
+			capacity := []int{1, 2, 4, 16, 256}[ci%5]
+			if e := os.Getenv("C18_CAP"); e != "" {
+				capacity, _ = strconv.Atoi(e)
+			}
+			out.Counters[fmt.Sprintf("pipeline.capacity_%d", capacity)]++
+			rr, err := startReal(plugin, c.Selectors, capacity)
 			if err != nil {
 				addViol("plugin="+plugin+" config-rejected", &witness{Config: ci, Event: -1, Plugin: plugin, Selectors: c.Selectors, Paths: c.paths, What: "documented selectors rejected: " + err.Error()})
 				continue
@@ -200,7 +206,7 @@ func child(raw json.RawMessage, io *core.ChildIO) (any, error) {
 				hits := 0
 				for _, o := range outs {
 					out.Counters[pre+"path."+o.kind]++
-					kinds = append(kinds, fmt.Sprintf("%d:%d:%s:%t:%t", o.depth, o.reached, o.kind, o.dotted, o.wide))
+					kinds = append(kinds, fmt.Sprintf("%d:%d:%s:%t:%t:%t", o.depth, o.reached, o.kind, o.dotted, o.wide, o.escaped))
 					if strings.HasPrefix(o.kind, "hit-") {
 						hits++
 						d := o.depth
@@ -210,6 +216,9 @@ func child(raw json.RawMessage, io *core.ChildIO) (any, error) {
 						out.Counters[fmt.Sprintf("%shit.depth%d", pre, d)]++
 						if o.dotted {
 							out.Counters[pre+"hit.dotted_name"]++
+						}
+						if o.escaped {
+							out.Counters[pre+"hit.key_with_nonminimal_json_escape"]++
 						}
 						if o.wide {
 							out.Counters[pre+"hit.in_object_over_16_fields"]++
@@ -228,6 +237,9 @@ func child(raw json.RawMessage, io *core.ChildIO) (any, error) {
 				out.Counters[pre+"result."+result]++
 				if ev.wsOn {
 					out.Counters[pre+"input.with_whitespace"]++
+				}
+				if ev.tree.indexOf("") >= 0 {
+					out.Counters[pre+"input.has_empty_key"]++
 				}
 				if len(ev.tree.keys) > 100 {
 					out.Counters[pre+"input.over_100_top_fields"]++
@@ -254,6 +266,18 @@ func child(raw json.RawMessage, io *core.ChildIO) (any, error) {
 	}
 	sort.Strings(out.FPs)
 	return out, nil
+}
+
+// smaller orders witnesses: shortest input first, then lowest indexes (deterministic choice).
+func smaller(a, b *witness) bool {
+	la, lb := len(a.Input)+len(strings.Join(a.Selectors, ",")), len(b.Input)+len(strings.Join(b.Selectors, ","))
+	if la != lb {
+		return la < lb
+	}
+	if a.Config != b.Config {
+		return a.Config < b.Config
+	}
+	return a.Event < b.Event
 }
 
 func uniq(s []string) []string {
@@ -321,9 +345,9 @@ func run(c *core.Ctx) {
 	c.Assume("events are JSON objects with unique (decoded) keys and valid UTF-8; selector names are non-empty and have no backslash before a dot or at their end (not expressible with the documented escaping)")
 	c.Assume("the pipeline itself (json decoder, fake input, devnull output, stream field absent) passes an event through unchanged apart from whitespace and key re-escaping; keys are compared decoded, values by raw bytes")
 
-	configs := c.N(2000, 40000)
+	configs := c.N(6000, 40000)
 	events := c.N(25, 60)
-	chunks := c.N(32, 320)
+	chunks := c.N(48, 320)
 	per := (configs + chunks - 1) / chunks
 
 	m := &merged{counters: map[string]int64{}, viol: map[string]*witness{}, violCount: map[string]int64{}}
@@ -376,8 +400,17 @@ func run(c *core.Ctx) {
 				if i := strings.LastIndex(site, ":"); i > 0 {
 					site = site[:i] // drop the line number
 				}
+				var lg struct {
+					Level, Message string
+				}
+				if strings.HasPrefix(msg, "{") && json.Unmarshal([]byte(msg), &lg) == nil && lg.Message != "" {
+					msg = lg.Level + ": " + lg.Message
+				}
+				if msg == "" {
+					msg = fmt.Sprintf("process exit code %d without panic message", conf.ExitCode)
+				}
 				results[ch].crashV = append(results[ch].crashV, crashViolation{
-					sig:  "plugin=" + last.Plugin + " panic=" + core.NormalizeMsg(msg) + "@" + site,
+					sig:  "plugin=" + last.Plugin + " crash=" + core.NormalizeMsg(msg) + "@" + site,
 					what: "process died inside " + last.Plugin + ": " + msg,
 					wit:  map[string]any{"config": last.Config, "plugin": last.Plugin, "last_command": conf.LastLog(), "stderr": core.Trunc(conf.Stderr, 3000)},
 					cfg:  last.Config,
@@ -428,7 +461,7 @@ func run(c *core.Ctx) {
 			}
 			for sig, w := range o.Viol {
 				m.violCount[sig] += o.ViolCount[sig]
-				if cur, ok := m.viol[sig]; !ok || w.Config < cur.Config || (w.Config == cur.Config && w.Event < cur.Event) {
+				if cur, ok := m.viol[sig]; !ok || smaller(w, cur) {
 					m.viol[sig] = w
 				}
 			}
@@ -444,8 +477,16 @@ func run(c *core.Ctx) {
 
 	// report: one call per signature, witness = the case with the lowest index
 	sort.Slice(crashes, func(i, j int) bool { return crashes[i].cfg < crashes[j].cfg })
+	crashSeen := map[string]int{}
 	for _, cv := range crashes {
-		c.Violation(cv.sig, cv.what, cv.wit)
+		crashSeen[cv.sig]++
+	}
+	for _, cv := range crashes {
+		if n := crashSeen[cv.sig]; n > 0 {
+			crashSeen[cv.sig] = 0
+			c.Count("crashed: "+cv.sig, int64(n))
+			c.Violation(cv.sig, cv.what, cv.wit)
+		}
 	}
 	sigs := make([]string, 0, len(m.viol))
 	for s := range m.viol {
@@ -462,7 +503,7 @@ func run(c *core.Ctx) {
 	// evidence floors: a run that never saw a behaviour class decides nothing about it
 	need := []string{"config.overlapping_paths", "config.duplicate_selectors", "normaliser.equal", "normaliser.dropped_nested_or_duplicate"}
 	for _, p := range plugins {
-		for _, k := range []string{"cases", "equal_to_reference", "hit.depth1", "hit.depth2", "hit.depth3", "hit.depth4", "hit.dotted_name", "hit.in_object_over_16_fields",
+		for _, k := range []string{"cases", "equal_to_reference", "hit.depth1", "hit.depth2", "hit.depth3", "hit.depth4", "hit.dotted_name", "hit.in_object_over_16_fields", "hit.key_with_nonminimal_json_escape", "input.has_empty_key",
 			"path.hit-scalar", "path.hit-object", "path.hit-array", "path.absent-root", "path.absent-mid", "path.absent-leaf",
 			"path.cross-array", "path.cross-array-numeric", "path.cross-scalar",
 			"result.unchanged", "result.partial", "result.emptied", "input.with_whitespace", "input.over_100_top_fields"} {
